@@ -192,3 +192,21 @@ func traceFeatures(c *mon.Child, tr *gram.Trace) {
 	}
 	c.FeatureMax("max:subproduction_depth", int64(tr.MaxSubDepth))
 }
+
+
+// affordable runs the reference evaluator with unlimited lookahead (the most
+// expensive configuration: nothing is ever committed) under a step budget and
+// reports whether the input is cheap enough to hand to the real parser in the
+// metamorphic checks. Backtracking parsers are exponential on some
+// (grammar, input) pairs; such pairs are skipped and counted, so that a
+// watchdog firing later means "far beyond the reference's cost", not "slow".
+func affordable(c *mon.Child, gp *gparsers, T []lexer.Token) bool {
+	env := gram.NewEnv(gp.g, T, gp.sym, gp.elided, gp.ci, -1, true)
+	env.Budget = 150000
+	env.Run()
+	if env.Over {
+		c.Inconclusive("reference-step-budget")
+		return false
+	}
+	return true
+}
